@@ -30,6 +30,13 @@ static const char * spell2[] = {
     "SYST:IEEE488:ADDR", "SYST:IEEE:ADDR", "TEST:RX_L?", "TEST:RX?", "test:rx_level?", "RX?", "RX_L?", "THERMOCOUPLES12:TYPE", "THER3:TYPE", "TYPE", "THERMOCOUPLE:TYPE", "SYNC",
 };
 #define NSPELL2 ((int) (sizeof spell2 / sizeof spell2[0]))
+/* third vocabulary: patterns that END in optional keywords carrying a numeric suffix, next to plainer entries that overlap them */
+#define NPOOL3 7
+static const char * pool3[NPOOL3] = { "OUTPut#[:CHANnel#]", "OUTPut#", "SOURce#:LEVel[:IMMediate#]?", "SOURce#:LEVel?", "[:OUTPut#]:CHANnel#", "CHANnel#", "OUTPut[:CHANnel#][:MODE#]" };
+static const char * spell3[] = {
+    "OUTP2", "OUTP", "OUTPUT3:CHAN5", "OUTP:CHANNEL", ":OUTP4:CHAN", "CHAN7", "CHAN", "SOUR1:LEV?", "SOURCE:LEVEL:IMM3?", "LEV?", "LEV:IMMEDIATE?", "OUTP:MODE2", "OUTP:CHAN1:MODE", "MODE5", "SOUR:LEV", "OUTP2:ZZ",
+};
+#define NSPELL3 ((int) (sizeof spell3 / sizeof spell3[0]))
 static const char ** pool = pool1, ** spell = spell1;
 static int NSPELL = NSPELL1, npool = NPOOL;
 
@@ -221,8 +228,8 @@ int main(int argc, char ** argv) {
     tc_log_flush = 0;        /* queries of this table answer nothing: the (empty) response framing is C06's subject */
     tc_init(&T, table, 256, 16);
     K = mc_thorough ? 4 : 3;
-    for (voc = 0; voc < 2; voc++) {
-        pool = voc ? pool2 : pool1; spell = voc ? spell2 : spell1; npool = voc ? NPOOL2 : NPOOL; NSPELL = voc ? NSPELL2 : NSPELL1;
+    for (voc = 0; voc < 3; voc++) {
+        pool = voc == 2 ? pool3 : voc ? pool2 : pool1; spell = voc == 2 ? spell3 : voc ? spell2 : spell1; npool = voc == 2 ? NPOOL3 : voc ? NPOOL2 : NPOOL; NSPELL = voc == 2 ? NSPELL3 : voc ? NSPELL2 : NSPELL1;
         for (a = 0; a < npool; a++) { pool_rp[a] = rp_parse(pool[a]); if (!pool_rp[a].ok) { printf("VIOL idx=0 sig=c02/harness :: pattern %s\n", pool[a]); return 2; } }
         for (a = 0; a < npool; a++) for (b = 0; b < npool; b++) {
             if (a == b) continue;
